@@ -119,6 +119,22 @@ pub proof fn wmc_smooth_theorem<T: Semiring>(p: BddPtr, c: bool, w: W<T>, o: Var
     }
 }
 
+/// the levels k.. of an order list every variable once
+pub proof fn lemma_levels_distinct(o: VarOrder, k: int)
+    requires o.wf(), 0 <= k <= o.n(),
+    ensures distinct(levels(o, k)),
+{
+    reveal(VarOrder::wf);
+    let lv = levels(o, k);
+    let n = o.n() as int;
+    assert forall|i: int, j: int| 0 <= i < j < lv.len() implies lv[i] != lv[j] by {
+        let a = n - 1 - i; let b = n - 1 - j;
+        if lv[i] == lv[j] {
+            assert(o.var_to_pos[o.pos_to_var[a] as int] == a);
+            assert(o.var_to_pos[o.pos_to_var[b] as int] == b);
+        }
+    }
+}
 /// every variable tested in an ordered diagram is in the order, at or after the root's level
 pub proof fn lemma_ordered_mentions(p: BddPtr, o: VarOrder, x: VarLabel)
     requires o.wf(), ordered(p, o), mentions(p, x),
@@ -167,6 +183,65 @@ pub proof fn wmc_bdd_corollary<T: Semiring>(p: BddPtr, c: bool, w: W<T>, o: VarO
         assert(vs[x.0 as int] == x.0);
     }
     wmc_theorem(p, c, w, vs, env);
+}
+
+/// THEOREM (C08 for ANY n, joining the two regimes): a diagram smoothed over the levels k .. n-1 of the order (what `smooth(bdd, n)` is
+/// proved to return, for any n up to the number of variables) counts, under weights that are ARBITRARY on those levels and normalised on the
+/// levels from n on, to the sum over all assignments of the variables at levels k.. of the product of the chosen literal weights times the
+/// indicator of its function.  n == number of variables is wmc_smooth_theorem, n == k is the unsmoothed theorem.
+pub proof fn wmc_partial_smooth_theorem<T: Semiring>(p: BddPtr, c: bool, w: W<T>, o: VarOrder, k: int, n: int, env: Env)
+    requires
+        csr::<T>(), wv(w), o.wf(), ordered(p, o), 0 <= k <= n <= o.n(), top(p, o) >= k,
+        smooth_from(p, k, n, o),
+        forall|i: int| n <= i < o.n() ==> normalised(w, #[trigger] o.pos_to_var[i] as u64),
+    ensures
+        wmc_spec(p, c, w) == zsum(indf::<T>(p, c), w, levels(o, k), env),
+    decreases n - k,
+{
+    reveal(VarOrder::wf);
+    c_consts::<T>();
+    let g = indf::<T>(p, c);
+    let nn = o.n() as int;
+    if k >= n {
+        // the rest of the diagram is an arbitrary ordered diagram over the levels n..: the normalised-weights theorem
+        let vs = levels(o, n);
+        lemma_levels_distinct(o, n);
+        lemma_ordered_decides_once(p, o);
+        assert forall|x: VarLabel| mentions(p, x) implies vs.contains(x.0) by {
+            lemma_ordered_mentions(p, o, x);
+            let j = o.pos(x);
+            assert(o.pos_to_var[j] == x.0);
+            assert(vs[nn - 1 - j] == x.0);
+        }
+        assert forall|i: int| 0 <= i < vs.len() implies normalised(w, #[trigger] vs[i]) by {
+            let j = nn - 1 - i;
+            assert(normalised(w, o.pos_to_var[j] as u64));
+        }
+        wmc_theorem(p, c, w, vs, env);
+    } else {
+        let nd = node_of(p);
+        let v = nd.var.0;
+        let cc = (c != (p is Compl));
+        let vs = levels(o, k);
+        assert(vs.last() == v);
+        assert(vs.drop_last() =~= levels(o, k + 1));
+        let e0 = upd(env, v, false); let e1 = upd(env, v, true);
+        wmc_partial_smooth_theorem(nd.low, cc, w, o, k + 1, n, e0);
+        wmc_partial_smooth_theorem(nd.high, cc, w, o, k + 1, n, e1);
+        let gl = indf::<T>(nd.low, cc); let gh = indf::<T>(nd.high, cc);
+        lemma_levels_distinct(o, k);
+        assert(!levels(o, k + 1).contains(v)) by {
+            let lv = levels(o, k + 1);
+            if lv.contains(v) {
+                let i = choose|i: int| 0 <= i < lv.len() && lv[i] == v;
+                let j = nn - 1 - i;
+                assert(o.var_to_pos[o.pos_to_var[j] as int] == j);
+                assert(o.var_to_pos[o.pos_to_var[k] as int] == k);
+            }
+        }
+        zsum_cong_fix(g, gl, w, levels(o, k + 1), e0, v, false);
+        zsum_cong_fix(g, gh, w, levels(o, k + 1), e1, v, true);
+    }
 }
 
 /// THEOREM (C11, first sentence, for BDD / decision-DNNF pointers): under normalised weights the count -- and so the
